@@ -281,3 +281,69 @@ func SameRecordModuloVersion(a, b []byte) bool {
 }
 
 func Hex(b []byte) string { return fmt.Sprintf("%x", b) }
+
+// ---- step-wise session driver (whole records; used by C06, C09) ----
+
+// Session drives one ech.Conn record by record over a non-blocking transport.
+type Session struct {
+	T *memnet.Conn
+	C *ech.Conn
+}
+
+// OpenSession feeds the first flight and runs NewConn. The transport is left open
+// (no EOF), so later records can be fed.
+func OpenSession(first []byte, keys []ech.Key) (s *Session, err error, panicked any) {
+	t := memnet.New()
+	t.Feed(first)
+	s = &Session{T: t}
+	defer func() {
+		if p := recover(); p != nil {
+			panicked = p
+		}
+	}()
+	var opts []ech.Option
+	if keys != nil {
+		opts = append(opts, ech.WithKeys(keys))
+	}
+	s.C, err = ech.NewConn(context.Background(), t, opts...)
+	return s, err, nil
+}
+
+// ReadOnce performs one Conn.Read with a buffer larger than any record.
+func (s *Session) ReadOnce() (data []byte, err error, panicked any) {
+	defer func() {
+		if p := recover(); p != nil {
+			panicked = p
+		}
+	}()
+	buf := make([]byte, 70000)
+	n, err := s.C.Read(buf)
+	return buf[:n], err, nil
+}
+
+// ClientSend feeds one complete record from the client and reads once.
+func (s *Session) ClientSend(rec []byte) ([]byte, error, any) {
+	s.T.Feed(rec)
+	return s.ReadOnce()
+}
+
+// BackendSend writes b through the Conn towards the client.
+func (s *Session) BackendSend(b []byte) (n int, err error, panicked any) {
+	defer func() {
+		if p := recover(); p != nil {
+			panicked = p
+		}
+	}()
+	n, err = s.C.Write(b)
+	return n, err, nil
+}
+
+// HRRRecord is a HelloRetryRequest in one record.
+func HRRRecord(sid []byte) []byte {
+	return tlsref.Record(22, 0x0303, tlsref.ServerHelloMsg(true, sid, []tlsref.Ext{{Type: tlsref.ExtSupportedVersions, Data: []byte{3, 4}}, {Type: tlsref.ExtKeyShare, Data: []byte{0, 0x17}}}))
+}
+
+// ServerHelloRecord is an ordinary ServerHello in one record.
+func ServerHelloRecord(sid []byte) []byte {
+	return tlsref.Record(22, 0x0303, tlsref.ServerHelloMsg(false, sid, []tlsref.Ext{{Type: tlsref.ExtSupportedVersions, Data: []byte{3, 4}}, {Type: tlsref.ExtKeyShare, Data: append([]byte{0, 0x1d, 0, 32}, tlsref.DetBytes("srv-share", 32)...)}}))
+}
